@@ -45,11 +45,13 @@ IntPats == {<<48>>, <<35>>, <<48, 48>>, <<35, 48>>, <<35, 35, 48>>, <<35, 44, 35
             <<35, 44, 35, 35, 44, 35, 35, 48>>, <<35, 44, 35, 35, 35, 44, 35, 48>>, <<35, 44, 35, 44, 35, 35, 48>>, <<35, 44, 35, 35, 48, 44, 48>>, <<48, 48, 48, 48, 44, 48, 48, 48>>, <<>>}
 FracPats == {<<>>, <<46, 48>>, <<46, 48, 48>>, <<46, 35>>, <<46, 48, 35>>, <<46, 35, 35>>, <<46, 48, 48, 48>>, <<46, 48, 44, 48>>, <<46, 48, 44, 48, 48, 44, 48>>, <<46, 48, 48, 44, 48, 35>>, <<46, 35, 35, 35, 35, 35, 35>>, <<46>>}
 ExpPats == {<<>>, <<101, 48>>, <<101, 48, 48>>}
-Prefixes == {<<>>, <<36>>, <<97, 32>>}
+Prefixes == {<<>>, <<36>>, <<97, 32>>, <<102, 101, 101, 32>>}
 Suffixes == {<<>>, <<37>>, <<8240>>, <<32, 117>>, <<37, 32, 117>>}
 Mantissas == {i \o f : i \in IntPats, f \in FracPats}
 SubPics == IF Depth >= 2 THEN {p \o m \o e \o s : p \in Prefixes, m \in Mantissas, e \in ExpPats, s \in Suffixes}
            ELSE {m \o s : m \in Mantissas, s \in {<<>>, <<37>>, <<8240>>}} \cup {p \o m \o e \o s : p \in {<<36>>}, m \in {<<48>>, <<35, 44, 35, 35, 48, 46, 48, 48>>, <<48, 48, 46, 48, 35>>, <<35>>, <<46, 48>>, <<35, 46, 35>>}, e \in ExpPats, s \in {<<>>, <<32, 117>>}}
+              \* exponent-separator characters in the prefix and in the suffix are passive: "fee 0", "0 each", "rate 0%", "e0", "0e", "0.0e0 each", "0% per year"
+              \cup {p \o m \o s : p \in {<<>>, <<102, 101, 101, 32>>, <<101>>}, m \in {<<48>>, <<35, 44, 35, 35, 48, 46, 48, 48>>, <<48, 46, 48, 101, 48>>, <<48, 37>>}, s \in {<<>>, <<32, 101, 97, 99, 104>>, <<101>>, <<32, 112, 101, 114, 32, 121, 101, 97, 114>>}}
 FmtNumbers == {X(1, <<0>>, 0), X(0 - 1, <<0>>, 0), X(1, <<5>>, 0 - 1), X(1, <<1, 5>>, 0 - 1), X(1, <<2, 5>>, 0 - 1), X(1, <<2, 8, 5>>, 0 - 3), X(1, <<1, 2, 3, 4, 5>>, 0 - 1), X(0 - 1, <<1, 2, 3, 4, 5>>, 0 - 1),
                X(1, <<7>>, 0 - 2), X(1, <<1, 2, 3, 4, 5, 6, 7, 8>>, 0), X(1, <<1>>, 21), X(1, <<1>>, 0 - 7), X(0 - 1, <<4>>, 0 - 1), X(1, <<9, 9, 9, 9, 9, 9, 6>>, 0 - 4), X(1, <<1, 2, 3>>, 0 - 6),
                X(1, <<1, 2, 3, 4, 5, 6, 7, 8, 9>>, 0 - 3), X(1, <<5>>, 0), X(1, <<9, 9, 5>>, 0 - 2), X(0 - 1, <<1>>, 3)}
